@@ -460,6 +460,8 @@ class Engine(object):
         self._known_seen = set()
         self.known = []          # known-finding entries for this property/config
         self.max_cex = None
+        self.slow_budget_s = 600.0
+        self.slow_spent = 0.0
         self.seed = seed
         self.cvc5 = {}
         self.cvc5_budget = 12      # queries per job
@@ -513,8 +515,12 @@ class Engine(object):
     def sqrt_of(self, s):
         # structural key (a term id would not survive garbage collection of the
         # simplified term): equal polynomials get the same root symbol
+        k0 = s.z.sexpr()       # same Python operations in the same order -> same raw term
+        if k0 in self._sqrt_cache:
+            return self._sqrt_cache[k0]
         k = z3.simplify(s.z, som=True, sort_sums=True).sexpr()
         if k in self._sqrt_cache:
+            self._sqrt_cache[k0] = self._sqrt_cache[k]
             return self._sqrt_cache[k]
         r = z3.Real("sqrt!%d" % len(self._sqrt_cache))
         # path exploration only knows r >= 0 (keeps the feasibility queries
@@ -526,6 +532,7 @@ class Engine(object):
         self.model = None
         res = Sym(r)
         self._sqrt_cache[k] = res
+        self._sqrt_cache[k0] = res
         return res
 
     def int_of(self, s):
@@ -836,14 +843,20 @@ class Engine(object):
                 todo = []
         # 2. one by one; 3. case split on if-then-else conditions
         for ob, n in todo:
-            s = self._fresh_solver(min(10000, self.obl_timeout_ms))
+            # a job whose hard obligations have already consumed the budget gives the remaining
+            # ones 2 s each (a broken tree can make hundreds of obligations hard at once; the
+            # verdict is then inconclusive or a violation anyway)
+            exhausted = self.slow_spent > self.slow_budget_s
+            s = self._fresh_solver(2000 if exhausted else min(10000, self.obl_timeout_ms))
             s.add(n)
             _t = time.time()
             r = s.check()
             self.nobl_q += 1
             m = s.model() if r == z3.sat else None
-            if r == z3.unknown:
+            if r == z3.unknown and not exhausted:
                 r, m = self._split_ite(n, [], [time.time() + 4 * self.obl_timeout_ms / 1000.0])
+            if time.time() - _t > 2.0:
+                self.slow_spent += time.time() - _t
             if _PROFILE and time.time() - _t > 1.0:
                 print("  slow obligation %.1fs %s: %s" % (time.time() - _t, r, ob.tag), flush=True)
             if r == z3.unsat:
